@@ -15,6 +15,7 @@ import (
 	"fmt"
 	"go/token"
 	"go/types"
+	"os"
 	"sort"
 	"strings"
 
@@ -232,10 +233,10 @@ type arrayDesc struct {
 	// condSite: an append site that some iterations of its loop skip (the array is built by appends only)
 	condSite *ssa.Call
 	poly     gpoly
-	kind   string // "make", "append", ""
-	length string // for make
-	at     ssa.Instruction
-	name   string
+	kind     string // "make", "append", ""
+	length   string // for make
+	at       ssa.Instruction
+	name     string
 }
 
 func describeArray(v ssa.Value, handoff ssa.Instruction) arrayDesc {
@@ -658,6 +659,8 @@ func Generators(fns []*ssa.Function, modelingPath string) []GenFinding {
 				} else if d.condSite != nil {
 					conds = append(conds, d)
 					condAt = append(condAt, h.at)
+				} else if os.Getenv("POLYCHECK_GENDEBUG") == "undesc" {
+					fmt.Fprintf(os.Stderr, "GENDEBUG undescribed array in %s: %s (%d handed)\n", fn.String(), h.v.Name(), len(hs))
 				}
 			}
 			// an array that grows under a per-element condition, attached unconditionally next to a sibling
